@@ -296,3 +296,671 @@ Proof.
   apply (matvec_vrange (length adj)); [|exact Hx].
   apply diffusion_operator_stochastic; assumption.
 Qed.
+
+(** * Initial temperatures *)
+
+Lemma is_seed_iff x : is_seed x = true <-> (0 <= x)%Q.
+Proof. unfold is_seed. apply Qle_bool_iff. Qed.
+
+Lemma is_seed_false x : is_seed x = false <-> (x < 0)%Q.
+Proof.
+  split; intros H.
+  - destruct (Qlt_le_dec x 0) as [L|L]; [exact L|]. apply is_seed_iff in L. congruence.
+  - destruct (is_seed x) eqn:E; [|reflexivity]. apply is_seed_iff in E. lra.
+Qed.
+
+Lemma inject_nat_S n : (inject_Z (Z.of_nat (S n)) == inject_Z (Z.of_nat n) + 1)%Q.
+Proof. rewrite Nat2Z.inj_succ. unfold Z.succ. rewrite inject_Z_plus. reflexivity. Qed.
+
+Lemma sumq_bounds l lo hi :
+  (forall x, In x l -> (lo <= x <= hi)%Q) ->
+  (lo * inject_Z (Z.of_nat (length l)) <= sumq l <= hi * inject_Z (Z.of_nat (length l)))%Q.
+Proof.
+  induction l as [|a t IH]; intros H.
+  - simpl. unfold inject_Z. lra.
+  - assert (Ha : (lo <= a <= hi)%Q) by (apply H; left; reflexivity).
+    assert (Ht := IH (fun x Hx => H x (or_intror Hx))).
+    cbn [length sumq fold_right]. change (fold_right Qplus 0%Q t) with (sumq t).
+    rewrite inject_nat_S. lra.
+Qed.
+
+Lemma qmean_bounds l lo hi :
+  l <> [] -> (forall x, In x l -> (lo <= x <= hi)%Q) -> (lo <= qmean l <= hi)%Q.
+Proof.
+  intros Hne H. unfold qmean. rewrite Qred_correct.
+  pose proof (sumq_bounds l lo hi H) as B.
+  assert (Hk : (0 < inject_Z (Z.of_nat (length l)))%Q).
+  { destruct l as [|a t]; [congruence|]. cbn [length]. rewrite inject_nat_S.
+    assert ((0 <= inject_Z (Z.of_nat (length t)))%Q).
+    { change 0%Q with (inject_Z 0). rewrite <- Zle_Qle. lia. }
+    lra. }
+  split.
+  - apply Qle_shift_div_l; [exact Hk|lra].
+  - apply Qle_shift_div_r; [exact Hk|lra].
+Qed.
+
+Lemma init_temperatures_spec seeds init temps border :
+  init_temperatures seeds init = Ok (temps, border) ->
+  exists t0,
+    border = map is_seed seeds /\
+    temps = map (fun x => if is_seed x then x else t0) seeds /\
+    match init with
+    | Some t => t0 = t
+    | None => filter is_seed seeds <> [] /\ t0 = qmean (filter is_seed seeds)
+    end.
+Proof.
+  unfold init_temperatures. destruct init as [t|].
+  - intros E. inversion E. exists t. auto.
+  - destruct (filter is_seed seeds) as [|x sv] eqn:F; [discriminate|].
+    intros E. inversion E. exists (qmean (x :: sv)). repeat split; auto. discriminate.
+Qed.
+
+Lemma init_temperatures_nth seeds init temps border i :
+  init_temperatures seeds init = Ok (temps, border) -> i < length seeds ->
+  length temps = length seeds /\ length border = length seeds /\
+  nthb border i = is_seed (nthq seeds i) /\
+  (is_seed (nthq seeds i) = true -> nthq temps i = nthq seeds i).
+Proof.
+  intros E Hi. apply init_temperatures_spec in E. destruct E as [t0 [Eb [Et _]]]. subst.
+  rewrite !map_length. repeat split; auto.
+  - unfold nthb, nthq. apply (nth_map_lt is_seed seeds i false 0%Q Hi).
+  - intros Hs. unfold nthq.
+    rewrite (nth_map_lt (fun x => if is_seed x then x else t0) seeds i 0%Q 0%Q Hi).
+    unfold nthq in Hs. rewrite Hs. reflexivity.
+Qed.
+
+Lemma init_temperatures_range seeds init temps border lo hi :
+  init_temperatures seeds init = Ok (temps, border) ->
+  (forall x, In x seeds -> (0 <= x)%Q -> (lo <= x <= hi)%Q) ->
+  (forall t, init = Some t -> (lo <= t <= hi)%Q) ->
+  vrange (length seeds) lo hi temps.
+Proof.
+  intros E Hs Hi. apply init_temperatures_spec in E. destruct E as [t0 [Eb [Et Ht0]]].
+  assert (Ht : (lo <= t0 <= hi)%Q).
+  { destruct init as [t|].
+    - subst t0. apply Hi. reflexivity.
+    - destruct Ht0 as [Hne Et0]. subst t0. apply qmean_bounds; [exact Hne|].
+      intros x Hx. apply filter_In in Hx. destruct Hx as [Hin Hx]. apply Hs; [exact Hin|].
+      apply is_seed_iff. exact Hx. }
+  subst temps. split; [apply map_length|].
+  intros i Hlt. unfold nthq.
+  rewrite (nth_map_lt (fun x => if is_seed x then x else t0) seeds i 0%Q 0%Q Hlt).
+  destruct (is_seed (nth i seeds 0%Q)) eqn:S; [|exact Ht].
+  apply Hs; [apply nth_In; exact Hlt|]. apply is_seed_iff. exact S.
+Qed.
+
+(** * Dirichlet: clamped iteration *)
+
+Lemma clamp_length border temps v : length (clamp border temps v) = length v.
+Proof. unfold clamp. rewrite map_length, seq_length. reflexivity. Qed.
+
+Lemma nth_clamp border temps v i :
+  i < length v -> nthq (clamp border temps v) i = if nthb border i then nthq temps i else nthq v i.
+Proof.
+  intros H. unfold clamp, nthq at 1.
+  exact (nth_map_seq (fun i => if nthb border i then nthq temps i else nthq v i) (length v) i 0%Q H).
+Qed.
+
+Lemma dirichlet_step_length p border temps v : length (dirichlet_step p border temps v) = length p.
+Proof. unfold dirichlet_step. rewrite clamp_length. apply matvec_length. Qed.
+
+Lemma nth_dirichlet_step p border temps v i :
+  i < length p ->
+  nthq (dirichlet_step p border temps v) i =
+  if nthb border i then nthq temps i else Qred (dot_row (wrow_of p i) v).
+Proof.
+  intros H. unfold dirichlet_step. rewrite nth_clamp by (rewrite matvec_length; exact H).
+  rewrite nth_matvec by exact H. reflexivity.
+Qed.
+
+Lemma normalize_length adj : length (normalize adj) = length adj.
+Proof. apply map_length. Qed.
+
+Lemma wrow_of_normalize adj i : wrow_of (normalize adj) i = normalize_row (wrow_of adj i).
+Proof.
+  unfold wrow_of, normalize. destruct (Nat.lt_ge_cases i (length adj)) as [H|H].
+  - apply nth_map_lt. exact H.
+  - rewrite !nth_overflow by (try rewrite map_length; exact H). reflexivity.
+Qed.
+
+Lemma wf_rows_wrow_of n adj i e : wf_rows n adj -> In e (wrow_of adj i) -> fst e < n /\ (0 <= snd e)%Q.
+Proof. intros W He. apply (W (wrow_of adj i) e); [eapply wrow_of_In; exact He|exact He]. Qed.
+
+(** The hypothesis on sinks that is actually needed: every node that is not a seed has positive
+    out-weight (seed nodes are re-imposed after each step, so their rows do not matter). *)
+Definition no_free_sink (adj : list wrow) (border : list bool) : Prop :=
+  forall i, i < length adj -> nthb border i = false -> (0 < row_norm (wrow_of adj i))%Q.
+
+Lemma dirichlet_step_vrange adj border temps v lo hi :
+  wf_rows (length adj) adj -> no_free_sink adj border ->
+  (forall i, i < length adj -> nthb border i = true -> (lo <= nthq temps i <= hi)%Q) ->
+  vrange (length adj) lo hi v ->
+  vrange (length adj) lo hi (dirichlet_step (normalize adj) border temps v).
+Proof.
+  intros W NS Ht Hv. split.
+  - rewrite dirichlet_step_length. apply normalize_length.
+  - intros i Hi. rewrite nth_dirichlet_step by (rewrite normalize_length; exact Hi).
+    destruct (nthb border i) eqn:B; [apply Ht; assumption|].
+    rewrite Qred_correct. apply (dot_row_bounds (length adj)); [|exact Hv].
+    rewrite wrow_of_normalize. apply normalize_row_stochastic.
+    + intros e He. eapply wf_rows_wrow_of; eassumption.
+    + pose proof (NS i Hi B). lra.
+Qed.
+
+Lemma dirichlet_core_bounds k adj border temps lo hi :
+  wf_rows (length adj) adj -> no_free_sink adj border ->
+  vrange (length adj) lo hi temps ->
+  vrange (length adj) lo hi (dirichlet_core k adj border temps).
+Proof.
+  intros W NS Hv. unfold dirichlet_core.
+  apply (iterate_inv (vrange (length adj) lo hi)); [|exact Hv].
+  intros x Hx. apply dirichlet_step_vrange; auto.
+  intros i Hi _. apply Hv. exact Hi.
+Qed.
+
+Lemma dirichlet_core_length k adj border temps :
+  length temps = length adj -> length (dirichlet_core k adj border temps) = length adj.
+Proof.
+  intros H. unfold dirichlet_core.
+  apply (iterate_inv (fun v => length v = length adj)); [|exact H].
+  intros x _. rewrite dirichlet_step_length. apply normalize_length.
+Qed.
+
+Lemma dirichlet_core_seeds k adj border temps i :
+  i < length adj -> nthb border i = true ->
+  nthq (dirichlet_core k adj border temps) i = nthq temps i.
+Proof.
+  intros Hi B. unfold dirichlet_core. destruct k as [|k]; [reflexivity|].
+  rewrite iterate_S. rewrite nth_dirichlet_step by (rewrite normalize_length; exact Hi).
+  rewrite B. reflexivity.
+Qed.
+
+Lemma diffusion_core_length k alpha adj temps :
+  length temps = length adj -> length (diffusion_core k alpha adj temps) = length adj.
+Proof.
+  intros H. unfold diffusion_core.
+  apply (iterate_inv (fun v => length v = length adj)); [|exact H].
+  intros x _. rewrite matvec_length. apply diffusion_operator_length.
+Qed.
+
+(** * Input handling: get_values, stack_values, get_adjacency_values *)
+
+Lemma get_values_length n v d l : get_values n v d = Ok l -> length l = n.
+Proof.
+  unfold get_values. destruct v as [[a|a|dd]|].
+  - destruct (Nat.eqb (length a) n) eqn:E; [|discriminate]. intros H. inversion H. subst. apply Nat.eqb_eq. exact E.
+  - destruct (Nat.eqb (length a) n) eqn:E; [|discriminate]. intros H. inversion H. subst. apply Nat.eqb_eq. exact E.
+  - destruct dd as [|x t]; [discriminate|].
+    destruct (forallb (fun e => fst e <? n) (x :: t)); [|discriminate].
+    intros H. inversion H. rewrite map_length, seq_length. reflexivity.
+  - intros H. inversion H. apply repeat_length.
+Qed.
+
+Lemma stack_values_length nr nc vr vc d l : stack_values nr nc vr vc d = Ok l -> length l = nr + nc.
+Proof.
+  unfold stack_values.
+  destruct (get_values nr _ d) as [a|] eqn:Ea; [|discriminate].
+  destruct (get_values nc _ d) as [b|] eqn:Eb; [|discriminate].
+  intros H. inversion H. rewrite app_length.
+  apply get_values_length in Ea. apply get_values_length in Eb. lia.
+Qed.
+
+Lemma block_undirected_length m : length (block_undirected m) = w_nrow m + w_ncol m.
+Proof.
+  unfold block_undirected. rewrite app_length, map_length, transpose_length. reflexivity.
+Qed.
+
+Lemma block_undirected_nonneg m : nonneg_rows (w_rows m) -> nonneg_rows (block_undirected m).
+Proof.
+  intros H r e Hr He. unfold block_undirected in Hr. apply in_app_or in Hr. destruct Hr as [Hr|Hr].
+  - apply in_map_iff in Hr. destruct Hr as [r0 [E Hr0]]. subst r.
+    apply in_map_iff in He. destruct He as [e0 [E He0]]. subst e. simpl. apply (H r0 e0); assumption.
+  - destruct (In_nth _ _ [] Hr) as [j [Hj Ej]]. subst r.
+    apply transpose_row_entries in He. destruct He as [_ [r0 [e0 [Hr0 [He0 Es]]]]].
+    rewrite Es. apply (H r0 e0); assumption.
+Qed.
+
+Lemma block_undirected_wf m : wf_wmat m -> wf_rows (w_nrow m + w_ncol m) (block_undirected m).
+Proof.
+  intros H r e Hr He. unfold block_undirected in Hr. apply in_app_or in Hr. destruct Hr as [Hr|Hr].
+  - apply in_map_iff in Hr. destruct Hr as [r0 [E Hr0]]. subst r.
+    apply in_map_iff in He. destruct He as [e0 [E He0]]. subst e. simpl.
+    destruct (H r0 e0 Hr0 He0) as [H1 H2]. split; [lia|exact H2].
+  - destruct (In_nth _ _ [] Hr) as [j [Hj Ej]]. subst r.
+    apply transpose_row_entries in He. destruct He as [Hlt [r0 [e0 [Hr0 [He0 Es]]]]].
+    destruct (H r0 e0 Hr0 He0) as [_ H2]. rewrite Es. split; [lia|exact H2].
+Qed.
+
+Lemma wf_rows_nonneg n rows : wf_rows n rows -> nonneg_rows rows.
+Proof. intros H r e Hr He. apply (H r e Hr He). Qed.
+
+Lemma gav_spec m fb values vr vc adj seeds bip :
+  get_adjacency_values m fb values vr vc = Ok (adj, seeds, bip) ->
+  length seeds = length adj /\
+  (nonneg_rows (w_rows m) -> nonneg_rows adj) /\
+  (wf_wmat m -> wf_rows (length adj) adj).
+Proof.
+  unfold get_adjacency_values.
+  destruct (Nat.eqb (nnz m) 0); [discriminate|].
+  destruct (_ || negb (Nat.eqb (w_nrow m) (w_ncol m))) eqn:B.
+  - match goal with |- match ?X with _ => _ end = _ -> _ => destruct X as [v|] eqn:Ev end; [|discriminate].
+    intros H. inversion H. subst adj seeds bip.
+    rewrite block_undirected_length.
+    assert (L : length v = w_nrow m + w_ncol m).
+    { destruct values; eapply stack_values_length; exact Ev. }
+    split; [exact L|]. split; [apply block_undirected_nonneg|apply block_undirected_wf].
+  - destruct (get_values (w_nrow m) values (-1)%Q) as [v|] eqn:Ev; [|discriminate].
+    intros H. inversion H. subst adj seeds bip.
+    apply orb_false_iff in B. destruct B as [_ B]. apply negb_false_iff in B. apply Nat.eqb_eq in B.
+    split; [apply get_values_length in Ev; exact Ev|]. split; [auto|].
+    unfold wf_wmat. fold (w_nrow m). rewrite B. auto.
+Qed.
+
+(** * Top-level theorems *)
+
+Definition all_in (lo hi : Q) (l : list Q) : Prop := Forall (fun x => (lo <= x <= hi)%Q) l.
+Definition out_in (lo hi : Q) (o : fit_out) : Prop :=
+  all_in lo hi (fst o) /\
+  match snd o with None => True | Some (r, c) => all_in lo hi r /\ all_in lo hi c end.
+
+Lemma vrange_all_in n lo hi v : vrange n lo hi v -> all_in lo hi v.
+Proof.
+  intros [L H]. apply Forall_forall. intros x Hx.
+  destruct (In_nth _ _ 0%Q Hx) as [i [Hi E]]. subst x. apply H. lia.
+Qed.
+
+Lemma split_vars_in lo hi bip nr v : all_in lo hi v -> out_in lo hi (split_vars bip nr v).
+Proof.
+  intros H. unfold split_vars, out_in. destruct bip; simpl.
+  - repeat split; try apply Forall_firstn; try apply Forall_skipn; exact H.
+  - split; [exact H|exact I].
+Qed.
+
+Lemma stacked_split_vars bip nr v : stacked (split_vars bip nr v) = v.
+Proof. unfold stacked, split_vars. destruct bip; simpl; [apply firstn_skipn|reflexivity]. Qed.
+
+Lemma diffusion_fit_bounds n_iter alpha m values vr vc init fb adj seeds bip out lo hi :
+  nonneg_rows (w_rows m) -> (0 <= alpha <= 1)%Q ->
+  get_adjacency_values m fb values vr vc = Ok (adj, seeds, bip) ->
+  (forall x, In x seeds -> (0 <= x)%Q -> (lo <= x <= hi)%Q) ->
+  (forall t, init = Some t -> (lo <= t <= hi)%Q) ->
+  diffusion_fit n_iter alpha m values vr vc init fb = Ok out ->
+  out_in lo hi out /\ length (stacked out) = length adj.
+Proof.
+  intros Hnn Ha G Hs Hi F. unfold diffusion_fit in F.
+  destruct (Nat.eqb n_iter 0); [discriminate|]. rewrite G in F.
+  destruct (init_temperatures seeds init) as [[temps border]|] eqn:IT; [|discriminate].
+  inversion F. subst out. clear F.
+  destruct (gav_spec _ _ _ _ _ _ _ _ G) as [L [Hn _]].
+  pose proof (init_temperatures_range _ _ _ _ lo hi IT Hs Hi) as R. rewrite L in R.
+  split.
+  - apply split_vars_in. apply (vrange_all_in (length adj)).
+    apply diffusion_core_bounds; auto.
+  - rewrite stacked_split_vars. apply diffusion_core_length. destruct R as [R _]. exact R.
+Qed.
+
+Lemma dirichlet_fit_bounds n_iter m values vr vc init fb adj seeds bip out lo hi :
+  wf_wmat m ->
+  get_adjacency_values m fb values vr vc = Ok (adj, seeds, bip) ->
+  no_free_sink adj (map is_seed seeds) ->
+  (forall x, In x seeds -> (0 <= x)%Q -> (lo <= x <= hi)%Q) ->
+  (forall t, init = Some t -> (lo <= t <= hi)%Q) ->
+  dirichlet_fit n_iter m values vr vc init fb = Ok out ->
+  out_in lo hi out /\ length (stacked out) = length adj.
+Proof.
+  intros W G NS Hs Hi F. unfold dirichlet_fit in F.
+  destruct (Nat.eqb n_iter 0); [discriminate|]. rewrite G in F.
+  destruct (init_temperatures seeds init) as [[temps border]|] eqn:IT; [|discriminate].
+  inversion F. subst out. clear F.
+  destruct (gav_spec _ _ _ _ _ _ _ _ G) as [L [_ Hw]].
+  pose proof (init_temperatures_range _ _ _ _ lo hi IT Hs Hi) as R. rewrite L in R.
+  assert (Eb : border = map is_seed seeds).
+  { apply init_temperatures_spec in IT. destruct IT as [t0 [Eb _]]. exact Eb. }
+  subst border.
+  split.
+  - apply split_vars_in. apply (vrange_all_in (length adj)).
+    apply dirichlet_core_bounds; auto.
+  - rewrite stacked_split_vars. apply dirichlet_core_length. destruct R as [R _]. exact R.
+Qed.
+
+Lemma dirichlet_fit_seeds n_iter m values vr vc init fb adj seeds bip out i :
+  get_adjacency_values m fb values vr vc = Ok (adj, seeds, bip) ->
+  dirichlet_fit n_iter m values vr vc init fb = Ok out ->
+  i < length seeds -> (0 <= nthq seeds i)%Q ->
+  nthq (stacked out) i = nthq seeds i.
+Proof.
+  intros G F Hi Hs. unfold dirichlet_fit in F.
+  destruct (Nat.eqb n_iter 0); [discriminate|]. rewrite G in F.
+  destruct (init_temperatures seeds init) as [[temps border]|] eqn:IT; [|discriminate].
+  inversion F. subst out. clear F.
+  destruct (gav_spec _ _ _ _ _ _ _ _ G) as [L _].
+  destruct (init_temperatures_nth _ _ _ _ i IT Hi) as [_ [_ [Eb Et]]].
+  apply is_seed_iff in Hs.
+  rewrite stacked_split_vars. rewrite dirichlet_core_seeds.
+  - apply Et. exact Hs.
+  - lia.
+  - rewrite Eb. exact Hs.
+Qed.
+
+(** Without the hypothesis on sinks the Dirichlet bound fails (the row of a sink is null, so its
+    value drops to 0): the hypothesis of the property ("every node has an outgoing edge") is needed. *)
+Lemma dirichlet_bounds_needs_no_sink :
+  exists m values out,
+    wf_wmat m /\
+    dirichlet_fit 1 m (Some values) None None None false = Ok out /\
+    ~ out_in 2 2 out.
+Proof.
+  exists {| w_ncol := 2; w_rows := [[(1, 1%Q)]; []] |}, (SList [2; -1]%Q), ([2; 0]%Q, None).
+  split; [|split].
+  - intros r e [Hr|[Hr|[]]] He; subst r; simpl in He; try contradiction.
+    destruct He as [He|[]]. subst e. simpl. split; [lia|lra].
+  - vm_compute. reflexivity.
+  - intros [H _]. simpl in H. inversion H as [|x l _ H2]. inversion H2 as [|y l2 [Hy _] _]. lra.
+Qed.
+
+(** Smallest and largest seed bound every seed. *)
+Lemma qmin_list_le l d : (qmin_list l d <= d)%Q /\ forall x, In x l -> (qmin_list l d <= x)%Q.
+Proof.
+  induction l as [|a t [IH1 IH2]]; simpl; [split; [lra|intros x []]|].
+  destruct (Qle_bool a (qmin_list t d)) eqn:E.
+  - apply Qle_bool_iff in E. split; [lra|]. intros x [Hx|Hx]; [subst; lra|]. specialize (IH2 x Hx). lra.
+  - assert (L : (qmin_list t d < a)%Q).
+    { destruct (Qlt_le_dec (qmin_list t d) a) as [L|L]; [exact L|]. apply Qle_bool_iff in L. congruence. }
+    split; [exact IH1|]. intros x [Hx|Hx]; [subst; lra|auto].
+Qed.
+
+Lemma qmax_list_ge l d : (d <= qmax_list l d)%Q /\ forall x, In x l -> (x <= qmax_list l d)%Q.
+Proof.
+  induction l as [|a t [IH1 IH2]]; simpl; [split; [lra|intros x []]|].
+  destruct (Qle_bool (qmax_list t d) a) eqn:E.
+  - apply Qle_bool_iff in E. split; [lra|]. intros x [Hx|Hx]; [subst; lra|]. specialize (IH2 x Hx). lra.
+  - assert (L : (a < qmax_list t d)%Q).
+    { destruct (Qlt_le_dec a (qmax_list t d)) as [L|L]; [exact L|]. apply Qle_bool_iff in L. congruence. }
+    split; [exact IH1|]. intros x [Hx|Hx]; [subst; lra|auto].
+Qed.
+
+Lemma seed_min_max_bound seeds x :
+  In x seeds -> (0 <= x)%Q -> (seed_min seeds <= x <= seed_max seeds)%Q.
+Proof.
+  intros Hin Hx. unfold seed_min, seed_max.
+  assert (F : In x (filter is_seed seeds)) by (apply filter_In; split; [exact Hin|apply is_seed_iff; exact Hx]).
+  destruct (filter is_seed seeds) as [|a t]; [contradiction|].
+  destruct (qmin_list_le t a) as [A1 A2]. destruct (qmax_list_ge t a) as [B1 B2].
+  destruct F as [F|F]; [subst; lra|]. specialize (A2 x F). specialize (B2 x F). lra.
+Qed.
+
+(** * Seeds as array, list and dict *)
+
+(** The dict [d] lists the same seeds as the vector [v]: every non-negative entry of [v] is in [d]
+    under its index, and [d] has nothing non-negative elsewhere. *)
+Definition dict_represents (n : nat) (d : list (nat * Q)) (v : list Q) : Prop :=
+  d <> [] /\ (forall e, In e d -> fst e < n) /\
+  forall i, i < n ->
+    ((0 <= nthq v i)%Q -> dict_get d i = Some (nthq v i)) /\
+    ((nthq v i < 0)%Q -> match dict_get d i with None => True | Some x => (x < 0)%Q end).
+
+Definition same_seed (x y : Q) : Prop := is_seed x = is_seed y /\ (is_seed y = true -> x = y).
+
+Lemma Forall2_by_nth {A} (R : A -> A -> Prop) (d : A) l1 l2 :
+  length l1 = length l2 -> (forall i, i < length l1 -> R (nth i l1 d) (nth i l2 d)) -> Forall2 R l1 l2.
+Proof.
+  revert l2; induction l1 as [|a t IH]; intros [|b t2] L H; simpl in L; try lia; constructor.
+  - apply (H 0). simpl. lia.
+  - apply IH; [lia|]. intros i Hi. apply (H (S i)). simpl. lia.
+Qed.
+
+Lemma same_seed_init l1 l2 init :
+  Forall2 same_seed l1 l2 -> init_temperatures l1 init = init_temperatures l2 init.
+Proof.
+  intros F.
+  assert (E1 : map is_seed l1 = map is_seed l2).
+  { induction F as [|x y t1 t2 [H1 _] _ IH]; simpl; congruence. }
+  assert (E2 : filter is_seed l1 = filter is_seed l2).
+  { clear E1. induction F as [|x y t1 t2 [H1 H2] _ IH]; simpl; [reflexivity|].
+    rewrite H1. destruct (is_seed y) eqn:S; [rewrite (H2 eq_refl), IH; reflexivity|exact IH]. }
+  assert (E3 : forall t, map (fun x => if is_seed x then x else t) l1 = map (fun x => if is_seed x then x else t) l2).
+  { clear E1 E2. intros t. induction F as [|x y t1 t2 [H1 H2] _ IH]; simpl; [reflexivity|].
+    rewrite IH, H1. destruct (is_seed y) eqn:S; [rewrite (H2 eq_refl); reflexivity|reflexivity]. }
+  unfold init_temperatures. rewrite E1, E2. destruct init as [t|].
+  - rewrite E3. reflexivity.
+  - destruct (filter is_seed l2); [reflexivity|]. rewrite E3. reflexivity.
+Qed.
+
+Lemma seeds_honoured_lemma n v d init :
+  length v = n -> dict_represents n d v ->
+  exists dv,
+    get_values n (Some (SArray v)) (-1)%Q = Ok v /\
+    get_values n (Some (SList v)) (-1)%Q = Ok v /\
+    get_values n (Some (SDict d)) (-1)%Q = Ok dv /\
+    init_temperatures dv init = init_temperatures v init /\
+    forall temps border i,
+      init_temperatures v init = Ok (temps, border) -> i < n -> (0 <= nthq v i)%Q ->
+      nthb border i = true /\ nthq temps i = nthq v i.
+Proof.
+  intros L [Hne [Hk Hd]].
+  exists (map (fun i => match dict_get d i with Some x => x | None => (-1)%Q end) (seq 0 n)).
+  assert (Ea : Nat.eqb (length v) n = true) by (apply Nat.eqb_eq; exact L).
+  split; [unfold get_values; rewrite Ea; reflexivity|].
+  split; [unfold get_values; rewrite Ea; reflexivity|].
+  split.
+  { unfold get_values. destruct d as [|e t]; [congruence|].
+    assert (F : forallb (fun e => fst e <? n) (e :: t) = true).
+    { apply forallb_forall. intros x Hx. apply Nat.ltb_lt. apply Hk. exact Hx. }
+    rewrite F. reflexivity. }
+  split.
+  { apply same_seed_init. apply (Forall2_by_nth same_seed 0%Q).
+    - rewrite map_length, seq_length. lia.
+    - rewrite map_length, seq_length. intros i Hi.
+      rewrite (nth_map_seq (fun i => match dict_get d i with Some x => x | None => (-1)%Q end) n i 0%Q Hi).
+      destruct (Hd i Hi) as [H1 H2]. fold (nthq v i).
+      destruct (Qlt_le_dec (nthq v i) 0) as [Neg|Pos].
+      + specialize (H2 Neg). assert (S2 : is_seed (nthq v i) = false) by (apply is_seed_false; exact Neg).
+        split; [|rewrite S2; discriminate]. rewrite S2. apply is_seed_false.
+        destruct (dict_get d i) as [x|]; [exact H2|lra].
+      + rewrite (H1 Pos). split; reflexivity. }
+  intros temps border i IT Hi Hs. rewrite <- L in Hi.
+  destruct (init_temperatures_nth _ _ _ _ i IT Hi) as [_ [_ [Eb Et]]].
+  apply is_seed_iff in Hs. split; [rewrite Eb; exact Hs|apply Et; exact Hs].
+Qed.
+
+(** * Uniqueness of the harmonic extension (maximum principle on a difference) *)
+
+Lemma sumq_ge_term {A} (f : A -> Q) l e :
+  (forall x, In x l -> (0 <= f x)%Q) -> In e l -> (f e <= sumq (map f l))%Q.
+Proof.
+  induction l as [|a t IH]; intros Hn He; [contradiction|]. simpl.
+  assert (Ha : (0 <= f a)%Q) by (apply Hn; left; reflexivity).
+  assert (Ht : (0 <= sumq (map f t))%Q).
+  { apply sumq_nonneg. intros x Hx. apply in_map_iff in Hx. destruct Hx as [y [Hy Hin]]. subst x.
+    apply Hn. right. exact Hin. }
+  destruct He as [He|He]; [subst; lra|].
+  assert (IH' := IH (fun x Hx => Hn x (or_intror Hx)) He). lra.
+Qed.
+
+Lemma row_norm_pos_of_entry r j w :
+  (forall e, In e r -> (0 <= snd e)%Q) -> In (j, w) r -> (0 < w)%Q -> (0 < row_norm r)%Q.
+Proof.
+  intros Hn Hin Hw. rewrite (row_norm_nonneg r Hn).
+  pose proof (sumq_ge_term snd r (j, w) Hn Hin) as G. simpl in G. lra.
+Qed.
+
+Lemma normalize_row_entry r j w :
+  ~ (row_norm r == 0)%Q -> In (j, w) r -> In (j, (w / row_norm r)%Q) (normalize_row r).
+Proof.
+  intros Hn Hin. unfold normalize_row. destruct (Qeq_bool (row_norm r) 0) eqn:E.
+  - apply Qeq_bool_eq in E. contradiction.
+  - apply in_map_iff. exists (j, w). split; [reflexivity|exact Hin].
+Qed.
+
+Lemma dot_row_sub r f g :
+  (dot_row r f - dot_row r g == sumq (map (fun e => snd e * (nthq f (fst e) - nthq g (fst e))) r))%Q.
+Proof.
+  unfold dot_row. rewrite <- sumq_sub. apply sumq_ext. intros e _. lra.
+Qed.
+
+(** If a convex combination of values all <= M equals M, every value carrying positive weight equals M. *)
+Lemma avg_max_all n r (V : nat -> Q) (M : Q) :
+  stochastic_row n r ->
+  (forall e, In e r -> (V (fst e) <= M)%Q) ->
+  (sumq (map (fun e => snd e * V (fst e)) r) == M)%Q ->
+  forall e, In e r -> (0 < snd e)%Q -> (V (fst e) == M)%Q.
+Proof.
+  intros [Hr Hs] Hle Hsum e He Hpos.
+  assert (Z : (sumq (map (fun e => snd e * (M - V (fst e))) r) == 0)%Q).
+  { rewrite (sumq_ext (fun e => snd e * (M - V (fst e))) (fun e => M * snd e - snd e * V (fst e)) r)%Q
+      by (intros x _; lra).
+    rewrite (sumq_sub (fun e => M * snd e) (fun e => snd e * V (fst e)) r)%Q.
+    rewrite (sumq_scale snd M r). rewrite Hs, Hsum. lra. }
+  assert (T : (snd e * (M - V (fst e)) == 0)%Q).
+  { apply (sumq_zero_terms (fun e => snd e * (M - V (fst e)))%Q r); [|exact Z|exact He].
+    intros x Hx. destruct (Hr x Hx) as [_ Hw]. specialize (Hle x Hx). nra. }
+  specialize (Hle e He). nra.
+Qed.
+
+Lemma exists_maximiser (D : nat -> Q) n :
+  0 < n -> exists m, m < n /\ forall i, i < n -> (D i <= D m)%Q.
+Proof.
+  induction n as [|n IH]; intros Hn; [lia|].
+  destruct n as [|n].
+  - exists 0. split; [lia|]. intros i Hi. assert (i = 0) by lia. subst. lra.
+  - destruct IH as [m [Hm Hmax]]; [lia|].
+    destruct (Qlt_le_dec (D m) (D (S n))) as [L|L].
+    + exists (S n). split; [lia|]. intros i Hi.
+      destruct (Nat.eq_dec i (S n)) as [E|E]; [subst; lra|]. specialize (Hmax i ltac:(lia)). lra.
+    + exists m. split; [lia|]. intros i Hi.
+      destruct (Nat.eq_dec i (S n)) as [E|E]; [subst; exact L|]. apply Hmax. lia.
+Qed.
+
+Definition reaches_border (adj : list wrow) (border : list bool) : Prop :=
+  forall i, i < length adj -> exists b, b < length adj /\ nthb border b = true /\ path adj i b.
+
+Lemma harmonic_le adj border temps f g :
+  wf_rows (length adj) adj -> reaches_border adj border ->
+  harmonic adj border temps f -> harmonic adj border temps g ->
+  forall i, i < length adj -> (nthq f i - nthq g i <= 0)%Q.
+Proof.
+  intros W RB [Lf Hf] [Lg Hg] i0 Hi0.
+  set (n := length adj) in *.
+  set (D := fun i => (nthq f i - nthq g i)%Q).
+  assert (Hpath : forall i k, path adj i k -> i < n -> k < n -> nthb border k = true ->
+                   (forall j, j < n -> (D j <= D i)%Q) -> (D i <= 0)%Q).
+  { intros i k P. induction P as [i|i j k E P IH]; intros Hi Hk Bk Hmax.
+    - specialize (Hf i Hi). specialize (Hg i Hi). rewrite Bk in Hf, Hg. unfold D. lra.
+    - specialize (Hf i Hi). specialize (Hg i Hi).
+      destruct (nthb border i) eqn:Bi; [unfold D; lra|].
+      destruct E as [w [Hin Hw]].
+      assert (Hnn : forall e, In e (wrow_of adj i) -> fst e < n /\ (0 <= snd e)%Q)
+        by (intros e He; eapply wf_rows_wrow_of; eassumption).
+      assert (Hnorm : (0 < row_norm (wrow_of adj i))%Q).
+      { apply (row_norm_pos_of_entry _ j w); [intros e He; apply Hnn; exact He|exact Hin|exact Hw]. }
+      assert (Hne : ~ (row_norm (wrow_of adj i) == 0)%Q) by lra.
+      assert (St : stochastic_row n (normalize_row (wrow_of adj i)))
+        by (apply normalize_row_stochastic; assumption).
+      assert (Hj : j < n) by (apply (Hnn (j, w) Hin)).
+      assert (Ej : (D j == D i)%Q).
+      { apply (avg_max_all n (normalize_row (wrow_of adj i)) D (D i) St) with (e := (j, (w / row_norm (wrow_of adj i))%Q)).
+        - intros e He. apply Hmax. destruct St as [St _]. apply (St e He).
+        - unfold D at 2. rewrite Hf, Hg. rewrite dot_row_sub. reflexivity.
+        - apply normalize_row_entry; assumption.
+        - simpl. apply Qlt_shift_div_l; [exact Hnorm|lra]. }
+      assert (Dj : (D j <= 0)%Q).
+      { apply IH; auto. intros x Hx. specialize (Hmax x Hx). lra. }
+      lra. }
+  destruct (exists_maximiser D n ltac:(lia)) as [m [Hm Hmax]].
+  destruct (RB m Hm) as [b [Hb [Bb P]]].
+  pose proof (Hpath m b P Hm Hb Bb Hmax) as Dm.
+  specialize (Hmax i0 Hi0). unfold D in *. lra.
+Qed.
+
+Lemma harmonic_unique_reach adj border temps f g :
+  wf_rows (length adj) adj -> reaches_border adj border ->
+  harmonic adj border temps f -> harmonic adj border temps g ->
+  forall i, i < length adj -> (nthq f i == nthq g i)%Q.
+Proof.
+  intros W RB Hf Hg i Hi.
+  pose proof (harmonic_le adj border temps f g W RB Hf Hg i Hi).
+  pose proof (harmonic_le adj border temps g f W RB Hg Hf i Hi). lra.
+Qed.
+
+Lemma connected_reaches adj border :
+  connected adj -> (exists s, s < length adj /\ nthb border s = true) -> reaches_border adj border.
+Proof.
+  intros C [s [Hs Bs]] i Hi. exists s. split; [exact Hs|]. split; [exact Bs|]. apply C; assumption.
+Qed.
+
+Lemma harmonic_unique_connected adj border temps f g :
+  wf_rows (length adj) adj -> connected adj ->
+  (exists s, s < length adj /\ nthb border s = true) ->
+  harmonic adj border temps f -> harmonic adj border temps g ->
+  forall i, i < length adj -> (nthq f i == nthq g i)%Q.
+Proof.
+  intros W C S. apply harmonic_unique_reach; [exact W|]. apply connected_reaches; assumption.
+Qed.
+
+(** * One Dirichlet step never increases the sup-distance to a harmonic function *)
+
+Lemma dirichlet_step_nonexpansive adj border temps h v d :
+  wf_rows (length adj) adj -> no_free_sink adj border ->
+  harmonic adj border temps h ->
+  dist_le (length adj) v h d ->
+  dist_le (length adj) (dirichlet_step (normalize adj) border temps v) h d.
+Proof.
+  intros W NS [Lh Hh] Hd i Hi.
+  rewrite nth_dirichlet_step by (rewrite normalize_length; exact Hi).
+  specialize (Hh i Hi). pose proof (Hd i Hi) as Hdi.
+  assert (D0 : (0 <= d)%Q) by (pose proof (Qabs_nonneg (nthq v i - nthq h i)); lra).
+  destruct (nthb border i) eqn:B.
+  - rewrite Hh. setoid_replace (nthq temps i - nthq temps i)%Q with 0%Q by lra. simpl. exact D0.
+  - rewrite Qred_correct, Hh, wrow_of_normalize, dot_row_sub.
+    assert (St : stochastic_row (length adj) (normalize_row (wrow_of adj i))).
+    { apply normalize_row_stochastic.
+      - intros e He. eapply wf_rows_wrow_of; eassumption.
+      - pose proof (NS i Hi B). lra. }
+    apply Qabs_Qle_condition.
+    pose proof (convex_bounds_pairs
+                  (map (fun e => (snd e, (nthq v (fst e) - nthq h (fst e))%Q)) (normalize_row (wrow_of adj i)))
+                  (- d)%Q d) as CB.
+    rewrite !map_map in CB. simpl in CB. apply CB.
+    + intros e He. apply in_map_iff in He. destruct He as [x [Hx Hin]]. subst e. simpl.
+      destruct St as [St _]. destruct (St x Hin) as [Hlt Hw]. split; [exact Hw|].
+      apply Qabs_Qle_condition. apply Hd. exact Hlt.
+    + destruct St as [_ St]. exact St.
+Qed.
+
+Lemma dirichlet_core_nonexpansive k adj border temps h d :
+  wf_rows (length adj) adj -> no_free_sink adj border ->
+  harmonic adj border temps h ->
+  dist_le (length adj) temps h d ->
+  dist_le (length adj) (dirichlet_core k adj border temps) h d.
+Proof.
+  intros W NS H D0. unfold dirichlet_core.
+  apply (iterate_inv (fun v => dist_le (length adj) v h d)); [|exact D0].
+  intros x Hx. apply dirichlet_step_nonexpansive; assumption.
+Qed.
+
+(** * Instances with the smallest / largest seed *)
+
+Lemma diffusion_fit_bounds_minmax n_iter alpha m values vr vc init fb adj seeds bip out :
+  nonneg_rows (w_rows m) -> (0 <= alpha <= 1)%Q ->
+  get_adjacency_values m fb values vr vc = Ok (adj, seeds, bip) ->
+  (forall t, init = Some t -> (seed_min seeds <= t <= seed_max seeds)%Q) ->
+  diffusion_fit n_iter alpha m values vr vc init fb = Ok out ->
+  out_in (seed_min seeds) (seed_max seeds) out.
+Proof.
+  intros Hnn Ha G Hi F.
+  apply (diffusion_fit_bounds n_iter alpha m values vr vc init fb adj seeds bip out _ _ Hnn Ha G); auto.
+  intros x Hx H0. apply seed_min_max_bound; assumption.
+Qed.
+
+Lemma dirichlet_fit_bounds_minmax n_iter m values vr vc init fb adj seeds bip out :
+  wf_wmat m ->
+  get_adjacency_values m fb values vr vc = Ok (adj, seeds, bip) ->
+  no_free_sink adj (map is_seed seeds) ->
+  (forall t, init = Some t -> (seed_min seeds <= t <= seed_max seeds)%Q) ->
+  dirichlet_fit n_iter m values vr vc init fb = Ok out ->
+  out_in (seed_min seeds) (seed_max seeds) out.
+Proof.
+  intros W G NS Hi F.
+  apply (dirichlet_fit_bounds n_iter m values vr vc init fb adj seeds bip out _ _ W G NS); auto.
+  intros x Hx H0. apply seed_min_max_bound; assumption.
+Qed.
